@@ -347,4 +347,6 @@ def generate(tier, seed):
     for tname in (["opcode_27", "opcode_36", "opcode_39"] if tier == "quick" else
                   ["opcode_15", "opcode_27", "opcode_33", "opcode_36", "opcode_37", "opcode_38", "opcode_39"]):
         obs.append(starts_ob(tname, tabs[tname], tier))
+    from props.corpus import corpus_ob
+    obs.append(corpus_ob("C05", "lines", FUNCS))
     return obs
